@@ -81,3 +81,15 @@ claim("C08", category="fault_enumeration", engine="crashmc",
            "strictly; the three parity-write defects are recorded findings keyed by call site.",
       note="threaded depths run free; per-file call numbering is schedule independent (one worker per file); the tail-not-collected finding is the only schedule dependent outcome",
       design="3 C08")
+
+claim("C09", category="fault_enumeration", engine="bytemc + crashmc",
+      technique="exhaustive byte/bit mutation of content files through the real loader under ASan/UBSan, plus exhaustive kill-point enumeration of the save-verify-rename sequence",
+      text="Part 1: for 2 (quick) / 6 (thorough) content shapes (v2, v3 with reduced hash and split parity, deleted-block runs, pending blocks, "
+           "rehash in progress, odd names, bad marks) EVERY single-bit flip, EVERY truncation length, every byte forced to 00/ff (thorough: all 256 "
+           "values at every tag-like offset) and an appended byte is loaded by an address+undefined sanitized build of the real binary via status and "
+           "list (thorough also diff, check -a, sync): the command must exit failing or stop through its own os_abort, with no sanitizer report, no "
+           "other signal, no hang (60 s, re-run with 600 s) and no file changed. Part 2: sync, touch and scrub with 1,3 (thorough 1,2,3,5,7) content "
+           "copies are killed before/after/in the middle of every state-changing call; every configured copy must be byte-identical to the old "
+           "version or decode (CRC included) to one of the complete new versions, and all copies are identical after success.",
+      note="new-version identity is the decoded model without inode numbers (inode numbers of data files differ between two materialisations of one state)",
+      design="3 C09")
